@@ -3,3 +3,6 @@ pub mod soup;
 pub mod text;
 pub mod adversarial;
 pub mod common;
+pub mod layout;
+pub mod mlstr;
+pub mod prog;
